@@ -8,10 +8,11 @@ failure is attributed to a known class only if the program lies in that class. T
 component properties (`C09:*`: reaching definitions, `C02:promote`: narrowing) plus two found by C01 itself.
 
 Skeleton: `a0`/`a1` assignment to `v` (`a1`: the assigned value depends on `v`'s previous value, directly or
-through names assigned in the same loop), `o` another simple statement, `u f` the failing evaluation
+through names assigned in the same loop), `o f` another simple statement (with the test flag of its expressions), `u f` the failing evaluation
 (test flag `f` = 1: an `isinstance(v, float|complex)` test occurs in the same statement / condition; `f` = 2: the
 condition is the truth value of another variable `w` that was assigned from an expression containing a test on `v`;
-`f` = 3: the condition is `v in s` / `v not in s` with `s` a str literal or a name),
+`f` = 3: the condition is `v in s` / `v not in s` with `s` a str literal or a name; `f` = 4: some other test on `v` —
+a comparison, isinstance, `not`, or `v` itself as a condition — occurs in the statement),
 `br`, `co`, `ret`, `rs`,
 `ite f B E`, `loop always f B E` (`while`/`for`; `always`: `while True`), `try B Hs E F`,
 `mt irrefutable f Cs` (`match`; `irrefutable`: the last case is a wildcard / capture without guard).
@@ -23,7 +24,8 @@ anywhere in an enclosing loop).
 namespace Pya.C01
 
 inductive Sk where
-  | a0 | a1 | o | br | co | ret | rs
+  | a0 | a1 | br | co | ret | rs
+  | o (f : Nat)
   | u (f : Nat)
   | ite (f : Nat) (b e : List Sk)
   | loop (always : Bool) (f : Nat) (b e : List Sk)
@@ -144,6 +146,7 @@ def Sk.testFlag : Sk → Nat
   | .ite f _ _ => f
   | .loop _ f _ _ => f
   | .u f => f
+  | .o f => f
   | .mt _ f _ => f
   | _ => 0
 def P_promote (s : Sk) : Bool := s.testFlag == 1
@@ -163,6 +166,12 @@ inferred type of the subject; the predicate is the syntactic region.) -/
 def P_matchExhaustive (s : Sk) : Bool :=
   Sk.anyLL (fun y => match y with | .mt _ _ _ => true | _ => false) s.blocks
 
+/-- own class: a test on `v` (direct, or through a variable that carries a constraint on `v`) inside a loop. The
+constraint's fake definition node is keyed by the AST node, so the visit of the next round puts it over a set of
+definition nodes that contains the node itself; the recursion guard of `_resolve_value` answers `Never`, and reads of
+`v` in or after the loop are inferred `Never` on paths that are really taken. -/
+def P_loopConstraintCycle (s : Sk) : Bool := s.isLoop && Sk.anyS (fun y => y.testFlag != 0) s
+
 def d01Classes (prog : List Sk) : List String :=
   let c (name : String) (P : Sk → Bool) : List String := if scanL P false prog then [name] else []
   c "C02:promote" P_promote ++ c "unionMemberConstraint" P_unionMemberConstraint ++
@@ -171,7 +180,7 @@ def d01Classes (prog : List Sk) : List String :=
   c "C09:loopElse" P_loopElse ++
   c "C09:secondVisitSeed" P_secondVisitSeed ++ c "C09:loopBreak" P_loopBreak ++
   c "C09:jumpThroughFinally" P_jumpThroughFinally ++ c "C09:loopJumpInSuppressing" P_loopJumpInSuppressing ++
-  c "C09:nestedLoopJump" P_nestedLoopJump
+  c "C09:nestedLoopJump" P_nestedLoopJump ++ c "loopConstraintCycle" P_loopConstraintCycle
 
 /-- REPAIRED in /repo (b494820, `_tuple_add_impl`): the driver no longer reports it — a recurrence is a new violation;
 kept as the description of the regression case in corpus/C01.jsonl. Formerly an own class for failing *operations*
